@@ -45,6 +45,11 @@ CLAIMED['C18'] = dict(
     note='Trusted: Coq kernel; translator; the small-list carving model is hand-written and tied by enumerating real lists/pools built from min_block_size (thorough: the complete domain 1..512 x 1..2000 x 3 list types) and comparing node counts; counters compared in lock-step on histories. "Reported maxima are upper bounds" is checked on logs, not proved.',
     technique='Coq arithmetic proofs over translator-regenerated formulas + exhaustive enumeration as model validation', ref='5 C18')
 
+CLAIMED['C17'] = dict(
+    text='Byte-level executable model of debug_fill, debug_is_filled, debug_fill_new and debug_fill_free and of the [fence | node | fence] layout. Theorems for every memory content, node size and fence size: debug_is_filled returns exactly the first differing byte; release reports the front fence then the back fence, each with the address of its first byte off the pattern, and a fence still carrying the pattern is not reported; hence every corruption of any fence byte with any other value is reported and writes confined to the node never are; fill_new / fill_free patterns are exact and touch nothing else.',
+    note='Trusted: Coq kernel; hand-written byte model tied by replaying corruption experiments (every byte offset of both fences, many values, multi-byte corruptions inside one word, in-bounds write sets) on heap, malloc, new and virtual memory allocators in dbg8/dbg16/fen8 (and in-bounds only in base): the sequence of reported addresses must equal the model. Fill patterns of the other allocators are checked on the implementation (new-memory pattern on every result; freed pattern on released pool nodes outside the link bytes), not proved per allocator.',
+    technique='Coq proofs over a byte-level model + experiment replay', ref='5 C17')
+
 NOT_YET = {}
 
 checks = []
